@@ -6,6 +6,7 @@ import (
 	"fmt"
 	"log/slog"
 	"os"
+	"path/filepath"
 	"reservoir/utils/assertedpath"
 )
 
@@ -46,18 +47,33 @@ func NewDefault() *Config {
 }
 
 // Writes the configuration to disk.
+// The new content goes to a temporary file that replaces the config file only once it is complete,
+// so a write that fails part-way leaves the previous file as it was.
 func (c *Config) persist() error {
-	f, err := os.Create(configPath.Path)
+	f, err := os.CreateTemp(filepath.Dir(configPath.Path), filepath.Base(configPath.Path)+".*.tmp")
 	if err != nil {
 		slog.Error("Failed to create config file", "path", configPath.Path, "error", err)
 		return fmt.Errorf("%w: failed to open config file for writing '%s'", ErrConfigFileOpen, configPath.Path)
 	}
-	defer f.Close()
+	defer os.Remove(f.Name()) // Does nothing once the file has been renamed into place.
 
 	enc := json.NewEncoder(f)
 	enc.SetIndent("", "  ") // Pretty print the JSON output
-	if err := enc.Encode(c); err != nil {
-		slog.Error("Failed to encode config to JSON", "path", configPath.Path, "error", err)
+	err = enc.Encode(c)
+	if err == nil {
+		err = f.Chmod(0644)
+	}
+	if err == nil {
+		err = f.Sync()
+	}
+	if closeErr := f.Close(); err == nil {
+		err = closeErr
+	}
+	if err == nil {
+		err = os.Rename(f.Name(), configPath.Path)
+	}
+	if err != nil {
+		slog.Error("Failed to write config file", "path", configPath.Path, "error", err)
 		return fmt.Errorf("%w: failed to write config to file '%s'", ErrConfigFileWrite, configPath.Path)
 	}
 
